@@ -895,6 +895,101 @@ theorem lookup_bound (T : Nat) (a : Actor) (now0 : Nat) (hr : Ready a now0) (ins
     have : now0 + T * (1 + ex.length) = now0 + T + T * ex.length := by rw [Nat.mul_add, Nat.mul_one, Nat.add_assoc]
     rw [this]; exact hl
 
+/-! ### when nothing arrives -/
+
+theorem preDone_none' (a : Actor) (env : Env) : a.preDone env none = a := rfl
+
+/-- **A tick without a datagram**: the lookup sends nothing — it is released if its requests are all
+    `T` old, and otherwise stays exactly as it is. -/
+theorem lookup_tick_silent (T : Nat) (a : Actor) (now0 : Nat) (hs : SockOk a now0) (hk : IterKeys a.core.iter)
+    (env : Env) (hnow : now0 ≤ env.now)
+    (hb : a.sock.nextTid + ((a.afterRecv env none).out.length - a.out.length) < two32)
+    (hT : a.sock.timeout ≤ T)
+    (t : Id) (q : IterQuery) (hq : alGet a.core.iter t = some q) (hc : C07.Closed q) (D : Nat) (hD : DueBy T a q D) :
+    Released a (a.afterRecv env none) t ∨
+    (env.now < D ∧ alGet (a.afterRecv env none).core.iter t = some q ∧ DueBy T (a.afterRecv env none) q D) := by
+  have hs0 := hs.mono hnow
+  have A34 := visitClosestAll_adv a env.now
+  have A45 := finishTick_adv (a.visitClosestAll env.now) env.now (a.checkDonePuts env.now)
+  have hb' : a.sock.nextTid + ((finishTick (a.visitClosestAll env.now) env.now (a.checkDonePuts env.now)).out.length
+      - a.out.length) < two32 := hb
+  obtain ⟨F34, _, F45⟩ := Adv.split A34 A45 hb'
+  have hs4 := F34.sockOk hs0
+  have hk4 := visitClosestAll_keys a env.now hk
+  have ht4 : (a.visitClosestAll env.now).sock.timeout ≤ T := by rw [visitClosestAll_tmo]; exact hT
+  obtain ⟨_, v2, _⟩ := C06.visitClosestAll_frame a env.now
+  have hqlt : ∀ tid ∈ q.inflight, tid < a.sock.nextTid := hs.iter (t, q) (mem_of_alGet _ _ _ hq)
+  obtain ⟨q4, g4, c4, _⟩ := visitClosestAll_tracked a env.now t q hq
+  have e4 := c4 hc
+  subst e4
+  have hd4 : DueBy T (a.visitClosestAll env.now) q4 D := dueBy_same F34 q4 hqlt D hD
+  show Released a (finishTick (a.visitClosestAll env.now) env.now (a.checkDonePuts env.now)) t ∨ _
+  obtain ⟨fd, fc⟩ := finishTick_tracked (a.visitClosestAll env.now) env.now (a.checkDonePuts env.now) t
+  by_cases hdone : q4.isDone (a.visitClosestAll env.now).sock env.now = true
+  · left
+    have hin := (doneLookups_keys _ env.now t q4 hk4 g4).2 hdone
+    obtain ⟨r1, r2, r3⟩ := fd hin
+    exact ⟨r1, r2, fun senders hsn => r3 senders (by rw [v2]; exact hsn)⟩
+  · right
+    have hnd := isDone_false_of_ne_true hdone
+    have hnin : t ∉ ((a.visitClosestAll env.now).doneLookups env.now).map (·.1) :=
+      fun h => hdone ((doneLookups_keys _ env.now t q4 hk4 g4).1 h)
+    obtain ⟨r, hr, hrt, hry⟩ := not_done_young _ env.now hs4.ord q4 env.now (hs4.iter (t, q4) (mem_of_alGet _ _ _ g4)) hnd
+    have := hd4 r hr hrt
+    refine ⟨by omega, ?_, ?_⟩
+    · show alGet (finishTick (a.visitClosestAll env.now) env.now (a.checkDonePuts env.now)).core.iter t = some q4
+      rw [fc hnin]; exact g4
+    · exact dueBy_same F45 q4 (hs4.iter (t, q4) (mem_of_alGet _ _ _ g4)) _ hd4
+
+/-- every iteration of the run is one in which no datagram arrives -/
+def Silent (ins : List StepIn) : Prop := ∀ i ∈ ins, i.dgram = none
+
+/-- **Nobody answers.**  Along a run in which no datagram arrives, a lookup whose requests are all
+    due by `D` is released by a tick of the run, or is still registered unchanged and the clock has
+    not reached `D`: with no answers a lookup lives at most one timeout — an unreachable bootstrap
+    list ends in "not bootstrapped", never in a hang (C13). -/
+theorem silent_run (T : Nat) (ins : List StepIn) : ∀ (a : Actor) (now0 : Nat), Ready a now0 → RunOk T a now0 ins →
+    Silent ins → ∀ (t : Id) (q : IterQuery), alGet a.core.iter t = some q → ∀ D, DueBy T a q D → now0 < D →
+    (∃ pre i post, ins = pre ++ i :: post ∧ Released (runSteps a pre) ((runSteps a pre).afterRecv i.env none) t) ∨
+    (alGet (runSteps a ins).core.iter t = some q ∧ endNow now0 ins < D) := by
+  induction ins with
+  | nil => intro a now0 _ _ _ t q hq D _ hlt; exact Or.inr ⟨hq, by simpa [endNow] using hlt⟩
+  | cons i is ih =>
+    intro a now0 hr hok hsil t q hq D hD _
+    obtain ⟨h1, h2, _, h4, h5⟩ := hok
+    have hi : i.dgram = none := hsil i List.mem_cons_self
+    -- the tick
+    have A05 := afterRecv_adv a i.env i.dgram
+    have A58 := late_adv (a.afterRecv i.env i.dgram) i.env i.msg
+    have hb' : a.sock.nextTid + (({ (((a.afterRecv i.env i.dgram).pickup i.env i.msg).maintenance i.env.now) with
+        sock := (((a.afterRecv i.env i.dgram).pickup i.env i.msg).maintenance i.env.now).sock.cleanup i.env.now } : Actor).out.length
+        - a.out.length) < two32 := h4
+    obtain ⟨F05, _, F58⟩ := Adv.split A05 A58 hb'
+    have hb05 : a.sock.nextTid + ((a.afterRecv i.env i.dgram).out.length - a.out.length) < two32 := by
+      obtain ⟨l2, e2⟩ := A58.out
+      have : ({ (((a.afterRecv i.env i.dgram).pickup i.env i.msg).maintenance i.env.now) with
+        sock := (((a.afterRecv i.env i.dgram).pickup i.env i.msg).maintenance i.env.now).sock.cleanup i.env.now } : Actor).out.length
+          = (a.afterRecv i.env i.dgram).out.length + l2.length := by rw [e2, List.length_append]
+      omega
+    rw [hi] at hb05 F05 F58
+    rcases lookup_tick_silent T a now0 hr.sock hr.keys i.env h1 hb05 h2 t q hq (hr.closed t q hq) D hD with
+      h | ⟨hlt, g5, d5⟩
+    · exact Or.inl ⟨[], i, is, rfl, h⟩
+    · have hs5 := F05.sockOk (hr.sock.mono h1)
+      have g8 : alGet (a.step i.env i.dgram i.msg).core.iter t = some q := by
+        rw [step_core, hi]
+        exact C07.maintenance_rel (keeps_create t q) _ i.env.now (C07.pickup_rel (keeps_create t q) _ i.env i.msg g5)
+      have d8 : DueBy T (a.step i.env i.dgram i.msg) q D := by
+        rw [hi]
+        exact dueBy_same F58 q (hs5.iter (t, q) (mem_of_alGet _ _ _ g5)) _ d5
+      have hr1 := step_ready a now0 hr i.env h1 i.dgram i.msg h4
+      rcases ih _ _ hr1 h5 (fun j hj => hsil j (List.mem_cons_of_mem _ hj)) t q g8 D d8 hlt with
+        ⟨pre, j, post, e, hrel⟩ | h
+      · exact Or.inl ⟨i :: pre, j, post, by rw [e]; rfl, by
+          have : runSteps a (i :: pre) = runSteps (a.step i.env i.dgram i.msg) pre := rfl
+          rw [this]; exact hrel⟩
+      · exact Or.inr h
+
 /-! ### the hypotheses are satisfiable (tests, labelled as tests) -/
 
 /-- a client with one bootstrap address: after creation it is `Ready` and the lookup of its own id
